@@ -9,6 +9,7 @@ GENERATORS = [
     ("unicode", "Unicode.lean", []),
     ("evalfacts", "EvalFacts.lean", ["{repo}"]),
     ("numfacts", "NumFacts.lean", ["{repo}"]),
+    ("chanfacts", "ChanFacts.lean", ["{repo}"]),
 ]
 
 
@@ -577,10 +578,14 @@ PROPERTIES = {
                    extra_streams=[{"stream": "wait", "profile": "duration", "quick": 5000, "thorough": 300000, "nontrivial": lambda obs, case: obs[0] not in ("0", "9223372036854775807")},
                                   {"stream": "wait", "profile": "shape", "quick": 70, "thorough": 1500, "nontrivial": lambda obs, case: True, "timeout": 1800},
                                   {"stream": "wait", "profile": "timing", "quick": 24, "thorough": 400, "nontrivial": lambda obs, case: True, "timeout": 1800},
-                                  {"stream": "wait", "profile": "abandon", "quick": 40, "thorough": 800, "nontrivial": lambda obs, case: True, "timeout": 1800}],
+                                  {"stream": "wait", "profile": "abandon", "quick": 40, "thorough": 800, "nontrivial": lambda obs, case: True, "timeout": 1800},
+                                  # real goroutines ordered event by event against the channel-level model (Props/C10Chan)
+                                  {"stream": "chansched", "profile": "mixed", "quick": 300, "thorough": 6000, "nontrivial": lambda obs, case: any(o.startswith("WAIT") for o in obs) and any(o.startswith(("ERR", "LINE")) for o in obs), "timeout": 1800},
+                                  {"stream": "chansched", "profile": "wrap", "quick": 150, "thorough": 3000, "nontrivial": lambda obs, case: any(o.startswith("WAIT") for o in obs), "timeout": 1800},
+                                  {"stream": "chansched", "profile": "host", "quick": 150, "thorough": 3000, "nontrivial": lambda obs, case: any(o.startswith("WAIT") for o in obs), "timeout": 1800}],
                    nontrivial=lambda obs, case: any(obs_kind(o) == "WAIT" for o in obs) and any(o.startswith("DONE") for o in obs),
                    rule="run/cmds: scripts with commands that complete on return, fail on return, or stay pending until the harness completes them with success or an error after any number of polls; compared: result class and the handler invocation log; non-trivial = a waiting answer and a later completion",
-                   leanchecker=["Ysgo.Props.C10", "Ysgo.Props.C10Facts"]),
+                   leanchecker=["Ysgo.Props.C10", "Ysgo.Props.C10Facts", "Ysgo.Props.C10Chan"]),
     "C11": runprop("visits", ("res", "vis"), ("text",), 1200, 50000,
                    nontrivial=lambda obs, case: len({parse_run(o)["vis"] for o in obs}) >= 3,
                    rule="run/visits: jump graphs with self-loops, cycles, jumps out of nested bodies and by expression, nodes marked tracking never/always, visit counters rendered in lines, snapshots and restores; compared: elements and the visit-count map after every operation; non-trivial = at least 3 distinct counter maps",
